@@ -1,7 +1,7 @@
 (* C05 -- templates that cannot be contextualized never produce output (sticky).
    Only the property theorems; proofs are in proofs/EngineFacts.v.  An exec op of the model answers
    RErrEscape (nothing is written), RExec tid (text/template runs text object tid) or another error. *)
-From V Require Import lib.Base model.TContext model.TTree model.TEscaper model.Engine spec.EngineSpec proofs.EngineFacts proofs.EngineHistFacts.
+From V Require Import lib.Base model.TContext model.TTree model.TEscaper model.Engine spec.EngineSpec proofs.EngineFacts proofs.EngineHistFacts proofs.EngineInvFacts.
 
 (* in EVERY world (reachable or not): once a template carries an analysis error, Execute on it
    returns that error, writes nothing, and the error stays *)
@@ -72,3 +72,33 @@ Theorem C05_failed_execute_recorded : forall w h o code,
   h_err (get_tmpl (fst (step w (OExecute h))) o) = EErr code.
 Proof. exact failed_execute_recorded. Qed.
 Print Assumptions C05_failed_execute_recorded.
+
+(* ---- over histories, for every REACHABLE world, without the hypothesis on Execute ---- *)
+(* every world the API can reach satisfies the well-formedness invariant Inv (set consistency,
+   association consistency, every handle denotes a registered member or an empty shell) *)
+Theorem C05_reachable_worlds_well_formed : forall ops, Inv (run_from world0 ops).
+Proof. exact Inv_reachable. Qed.
+Print Assumptions C05_reachable_worlds_well_formed.
+
+(* the full statement: after ANY history ops0 of API calls, if a template carries an analysis error,
+   then after ANY further history ops (New, Parse, Clone, Lookup, Execute, ExecuteTemplate, ... through
+   any handles of any set; t.New only for names its set does not define yet) the handle still denotes
+   it, the error is still there, and Execute returns it (C05_sticky_execute: nothing is written) *)
+Theorem C05_sticky_forever : forall ops0 h o code ops,
+  let w := run_from world0 ops0 in
+  handle w h = Some o -> h_err (get_tmpl w o) = EErr code -> no_redefine_hist w ops ->
+  let w' := run_from w ops in
+  handle w' h = Some o /\ h_err (get_tmpl w' o) = EErr code /\
+  snd (step w' (OExecute h)) = RErrEscape code.
+Proof. exact sticky_forever_reachable. Qed.
+Print Assumptions C05_sticky_forever.
+
+Theorem C05_sticky_forever_by_name : forall ops0 o code ops h' obj' name,
+  let w := run_from world0 ops0 in
+  h_err (get_tmpl w o) = EErr code -> no_redefine_hist w ops ->
+  let w' := run_from w ops in
+  handle w' h' = Some obj' ->
+  assoc_get name (n_set (get_ns w' (h_ns (get_tmpl w' obj')))) = Some o ->
+  snd (step w' (OExecuteTemplate h' name)) = RErrEscape code.
+Proof. exact sticky_forever_by_name_reachable. Qed.
+Print Assumptions C05_sticky_forever_by_name.
